@@ -124,8 +124,65 @@ def run_item(ck, it, tier):
             # accounted usage = stored total in the pre-state (what one insert per key reaches; replayable natively)
             return cas0(progs, st) + [z3.ULT(L, 1 << 40), st.usage == z3.If(st.present[0], BV(24) + vlen(st.val[0]), BV(0))]
         return explore_program(ck, P['names'], constraints=cons, allow_stale=P.get('stale', False), policy='random', memory_limit=L,
-                               check_lin=False, known_regions=False, regions_fn=reset_race_region, budget_s=900, prefixes=prefixes, extra_obligations=P.get('extra'),
+                               check_lin=False, known_regions=False, regions_fn=reset_race_region, budget_s=900, prefixes=prefixes, extra_obligations=(P.get('extra') if ck.pid in ('C14', 'C15') else None),
                                frontier_depth=(12 if prefixes == 'frontier' else None))
+
+
+def connection_level(ck, tier):
+    """no livelock in the connection loop: the real Client::handle on [get of a stored item][noop] towards a peer that may stop
+    reading at any write (send buffer full from then on): every poll of the task returns - it completes or suspends, it never
+    spins.  A loop that passes its unwinding bound is replayed over loopback: two clients that do not read their (large)
+    responses must not keep a third client from being served."""
+    from . import sock_common as SC
+    from . import handler_common as HC
+    from .wire import frame, parse_response
+    from .world import St
+    import struct
+    E = ck.E
+    st = St(1)
+    key = b'kk'
+    req = frame(0x00, key, opaque=0x11223344) + frame(0x0a, opaque=0x5a5a5a5a)
+
+    def h(E):
+        E.assume(SC.limit == (1 << 22), st.present[0], st.live(0), z3.ULE(vlen(st.val[0]), 1 << 21), st.now == 1000, z3.ULE(st.cas_id, 1000))
+        for c in st.wellformed():
+            E.assume(c)
+        for j, b in enumerate(req):
+            E.assume(z3.Select(HC.WIRE, BV(j)) == b)
+            E.known_bytes[j] = b
+        s = SC.Stream(0)
+        s.total = BV(len(req))
+        E.loop_bound = 6
+        return SC.run_client(E, st, s, end='silent', max_reads=3, wslow=True)
+    res = ck.explore(h)
+
+    def on_live(m, where):
+        big = frame(0x01, key, struct.pack('>II', 0, 0), b'v' * (512 * 1024), opaque=7)
+        gets = frame(0x00, key, opaque=1) * 60
+        noop = frame(0x0a, opaque=9)
+        slow = {'chunks': [big.hex(), gets.hex()], 'pause_ms': 30, 'read_ms': 0, 'end': 'hold'}
+        sc = {'kind': 'socket', 'item_limit': 1 << 21, 'timeout_secs': 5, 'connection_limit': 16,
+              'conns': [slow, dict(slow), dict(slow), {'chunks': [noop.hex()], 'pause_ms': 30, 'read_ms': 2500, 'end': 'hold'}]}
+        out = ck.replay([sc], timeout=60)[0]
+        got = out['conns'][3].get('received', '')
+        desc = f"three clients pipeline 60 gets of a 512 KiB item each and do not read; a fourth client's noop is answered: {len(got) >= 48}"
+        return (True if len(got) < 48 else None), desc, sc
+    n_ok = 0
+    for p in res:
+        if p.status == 'inconclusive' and 'unwinding bound' in str(p.info):
+            if p.info in ck.inconclusive:
+                ck.inconclusive.remove(p.info)
+            ck.obligation('connection: the task suspends when the peer stops reading (no loop spins on a full send buffer)', p.pc, z3.BoolVal(False), {}, on_live, [])
+            continue
+        if p.status == 'ok':
+            n_ok += 1
+            x = p.out
+            ck.obligations += 1
+            ck.discharged += 1
+            if x.state == 'pending':
+                ck.cover('connection: suspended on a full send buffer / silent peer', True)
+    ck.cover('connection: write path towards a slow reader explored', n_ok > 0)
+    ck.bounds['connection'] = 'Client::handle on [get][noop], peer may stop reading at any write, loops unwound <= 6 times'
 
 
 def run(tier, seed, replay_path=None):
@@ -154,6 +211,7 @@ def run(tier, seed, replay_path=None):
             if chunk:
                 items.append((kind, (name, chunk)))
     ck.fork_map(singles + items, lambda c, it: run_item(c, it, tier))
+    connection_level(ck, tier)
     return ck.finish()
 
 
